@@ -19,6 +19,7 @@ import (
 	"context"
 	"encoding/json"
 	"fmt"
+	"os"
 	"path/filepath"
 	"runtime/debug"
 	"sort"
@@ -650,6 +651,10 @@ func classify(oracle string, ops, res []string) string {
 }
 
 func main() {
+	if len(os.Args) > 1 && os.Args[1] == "witness" {
+		printWitnesses()
+		return
+	}
 	fw.Main(&fw.Prop{
 		ID: "C16",
 		Rule: "requirement strings rendered from a PEP 508 AST (names with mixed case and -_. runs, extras lists, bare and parenthesised specifier lists, markers, arbitrary space/tab choices), " +
